@@ -291,8 +291,8 @@ def gen_td(r, tbl, depth, probe):
 
 def nullable_spec(t) -> bool:
     """the serializer's notion of a nullable field type (CodeBuilder.is_field_nullable without the default clause):
-    Any, None, or Optional[X] = a union of exactly two distinct members one of which is None (helpers.is_optional);
-    Union[int, None, str] and Literal[None] are not"""
+    Any, None, or a union with a direct None member (Optional[X], Union[int, None, str]; since /repo 906a805);
+    Literal[None] is not"""
     while t[0] == "newtype":
         t = t[1]
     if t[0] in ("any", "none"):
@@ -306,13 +306,10 @@ def nullable_spec(t) -> bool:
         if u[0] == "union":
             return [x for m in u[1] for x in flat(m)]
         return [u]
-    ms = []
-    for m in flat(t):
-        if m not in ms:
-            ms.append(m)
-    if len(ms) == 1:
+    ms = flat(t)
+    if all(m == ms[0] for m in ms):        # typing collapses Union[X, X] to X
         return ms[0][0] in ("none", "any")
-    return len(ms) == 2 and ("none",) in ms
+    return ("none",) in ms
 
 
 def has_reset_collection(t, tbl, seen=None) -> bool:
